@@ -62,6 +62,12 @@ CHECKS = {
         text='All words of 1..3 segments (thorough: 4, and 5 under the self/mutual/regex environments) over {a - $A ${A} $AB ${AB} $U ${U} $? $$}, unquoted / double-quoted / single-quoted, under nine variable environments (plain, blank, empty, reference to another variable, self-reference in both spellings, mutual reference, $1, regex-special) installed exported and shell-local, are planned by the real code; the argv must equal a reference single-pass expansion (double-quoted: exactly one argument; single-quoted: literal) and every case must terminate. Words of <= 2 segments are also executed by the real binary.',
         note='Names and values are the bound; word splitting of unquoted results is accepted either way (statement silent).',
         ref='DESIGN.md §4 C10'),
+    'C11': dict(
+        engine='E1 bounded-exhaustive enumeration of output texts x spellings x placements x contexts on the real binary',
+        technique='bounded-exhaustive enumeration of all output texts of up to 2 atoms over a 12-atom alphabet x both spellings x placements x quoting contexts, executed by the real binary with a recording helper (exactly-once check) against the literal-splice reference',
+        text='All output texts of up to 2 atoms over {x blank $1 ${x} $A backslash newline * {a,b} ) ( .+} plus trailing-newline variants are produced by a recording helper and substituted with $(...) and backquotes as whole word / at word start / middle / end, unquoted and double-quoted, as assignment value and as here-string operand; special inner commands: pipeline, builtin, failing, not found, syntactically invalid, nested, two substitutions in one word and line. The real binary must pass exactly head + output-without-trailing-newlines + tail (byte-exact, one argument in double quotes), run the inner command exactly once, show variables to it, give a diagnostic and an empty replacement for unusable inner commands, never hang, create no file.',
+        note='Atoms and lengths are the bound; unquoted results compared only for outputs without leading/trailing blanks; one open known finding (backquote substitution at the start of an unquoted word followed by text).',
+        ref='DESIGN.md §4 C11'),
     'C12': dict(
         engine='E1 bounded-exhaustive input sweep (in-process plan) + real binary',
         technique='bounded-exhaustive enumeration of all well-formed brace terms, ranges, tilde forms and directory populations x patterns, planned by the real code against reference expanders; conformance replay through the real binary',
